@@ -531,9 +531,9 @@ def nt_c19(lhs, impl):
     return ("mut", status, impl[:6], len(f) % 17)
 
 PROPS["C19"] = {
-    "modules": ["WhatIs.Props.C19"],
+    "modules": ["WhatIs.Props.C19", "WhatIs.Props.C12"],
     "theorems": ["WhatIs.C19.keyid_readback", "WhatIs.C19.identity_readback", "WhatIs.C19.string_tag_stored",
-                 "WhatIs.C19.ill_typed_is_absent", "WhatIs.C19.unsigned_iff", "WhatIs.C19.sig_readback", "WhatIs.C19.sig_header_always_read"],
+                 "WhatIs.C19.ill_typed_is_absent", "WhatIs.C19.unsigned_iff", "WhatIs.C19.sig_readback", "WhatIs.C19.sig_header_always_read", "WhatIs.C19.sig_v3_from_bytes", "WhatIs.C12.sig_selfsig_readback"],
     "facts": {"rpm.sigHeaderNeedsRegionTag": False, "rpm.uncheckedAccessorCalls": [], "rpm.keyIdFormats": ["%016X", "%016X"]},
     "nontrivial": nt_c19,
     "rule": "packages written by the harness (lead v3/v4, signature header, main header): name/version/release/arch strings, each of "
@@ -607,6 +607,9 @@ def nt_c12(lhs, impl):
         d = _hexbytes(lhs.split(" ")[1])
         t = impl.split(" ")
         return ("pgpframes", d[0] >> 6 if d else -1, (d[0] & 3) if d and d[0] < 0xC0 else -1, t[0], min(int(t[1]), 9) if len(t) > 1 else 0)
+    if lhs.startswith("pgpsig3 "):
+        d = _hexbytes(lhs.split(" ")[1])
+        return ("pgpsig3", impl.split(" ")[0], bytes(d[:2]).hex(), bytes(d[15:17]).hex(), min(len(d), 40))
     if lhs.startswith("pgpsig "):
         d = _hexbytes(lhs.split(" ")[1])
         t = impl.split(" ")
